@@ -4,6 +4,7 @@ from __future__ import annotations
 import contextlib
 import io
 import math
+import re as _re
 
 import numpy as np
 
@@ -42,6 +43,11 @@ ASSUMPTIONS = [
     "own continuation: C01) and 'the stacked Jacobian is non-singular' as injectivity of the linear part",
     "models with a flat (stationary) steady state; parameter variants are simulated and checked one by one, each on its "
     "own data (the frame loop of a variant is the modelled unit)",
+    "'simulate reports success' is read as: with when_fails in {critical, error, warning} simulate() returns normally and "
+    "a frame is not listed in an IrisPieWarning 'Simulation failed to complete'; with when_fails='silent' the exit "
+    "statuses of return_info are the report.  The per-frame exit status (Newton) is an oracle of the report model",
+    "the equations in force are the model's (its own parameter values) unless parameters_from_data=True is passed; "
+    "names of parameters, shocks and stds are disjoint (one group per name) in the row theorem",
 ]
 
 MANIFEST = {
@@ -57,7 +63,14 @@ MANIFEST = {
                   "leads beyond the last column read through the terminal operator in force; writing a guess and writing a "
                   "frame back leave every cell outside the unknown cells / outside the frame slice (and every exogenized "
                   "cell) unchanged; for affine equations and an affine terminal operator the first-order path is a zero of "
-                  "the stacked system and the only one when the linear part is injective. The Newton iteration, AD "
+                  "the stacked system and the only one when the linear part is injective. For any number of variants and "
+                  "frames and any per-frame exit statuses, simulate() with when_fails in {critical, error, warning} returns "
+                  "normally without a warning iff every frame of every variant reports success (statement shapes of the "
+                  "loops of Inlay.simulate and of the streams of wrongdoings.py regenerated from the source); the dataslate "
+                  "row of a parameter / shock / std name is the model's value whatever the databox holds when the group's "
+                  "*_from_data flag is off, and the databox's values with the model's value in the gaps when it is on "
+                  "(blocks of _slatable_for_simulate_or_kalman_filter, flag wiring of simulate(), order of fallbacks and "
+                  "overwrites regenerated from the source). The Newton iteration, AD "
                   "Jacobian values and first-order matrices are contracts.",
     "level_note": "partial: Newton convergence, Jacobian values (C02) and the first-order solution (C01) are contracts; the "
                   "model is tied to the code by exact correspondence of frames, unknown cells, index maps, pruning and "
@@ -1348,7 +1361,7 @@ def slat_entries(case, rec, v):
         elif name in stds.keys():
             sv = stds[name]
             g, val = "GStds", float(sv[min(v, len(sv) - 1)] if isinstance(sv, (list, tuple)) else sv)
-        elif (name.startswith("e") or name.startswith("ant_e")) and name.lstrip("ant_").lstrip("eo").isdigit():
+        elif _re.fullmatch(r"(ant_)?e\d+|eo\d+", name):
             g, val = "GShocks", 0.0
         else:
             continue
